@@ -47,8 +47,11 @@ ASSUMPTIONS = [
     'largest entry of the reference jacobian summed over 3 harness-drawn points of that 1e-9 neighbourhood '
     'of every first-linearization point so far (entries that vanish identically near that point - branch '
     'switches of min/max/abs - or only to third order, e.g. d(x**4)/dx at x = 0, are not demanded)',
-    'a complex-step linearization may leave Re f(x+ih) in the outputs: outputs re-read after '
-    'compute_totals get an absolute slack of 1e-70 (h = 1e-40, |f\'\'| <= 1e10)',
+    'a complex-step linearization may leave Re f(x+ih) in the outputs and complex-step derivatives have '
+    'an O(h^2) truncation error: outputs re-read after compute_totals and all derivatives get an absolute '
+    'slack of 1e-70 (h = 1e-40, higher derivatives <= 1e10); it matters only where the exact value is 0',
+    'log1p means the accurate one (numpy.log1p of the real part); numpy\'s complex log1p, log|1+z|, has an '
+    'absolute error of one roundoff',
     'an output used by a later expression of the same ExecComp is not generated (setup rejects it)',
 ]
 MIN_JUDGED = {'quick': 300, 'thorough': 5000}
@@ -63,9 +66,11 @@ SHARD_TIMEOUT = {'quick': 900, 'thorough': 3600}
 
 NOISE_DRAWS = 4
 H = 1e-40
-# a complex-step linearization may leave Re f(x + ih) = f(x) - h^2 f''(x)/2 in the outputs: h = 1e-40 (the
-# documented ExecComp.complex_stepsize) and |f''| <= 1e10 for the guarded expressions (magnitudes <= 1e4,
-# arguments >= 0.2 away from singularities)
+# a complex-step linearization may leave Re f(x + ih) = f(x) - h^2 f''(x)/2 in the outputs, and the
+# complex-step derivative Im f(x + ih)/h = f'(x) - h^2 f'''(x)/6 has a truncation error (visible only where
+# the exact value is 0, e.g. d(log1p(x)**2)/dx at x = 0): h = 1e-40 (the documented
+# ExecComp.complex_stepsize, also the harness' step) and |f''|, |f'''| <= 1e10 for the guarded expressions
+# (magnitudes <= 1e4, arguments >= 0.2 away from singularities)
 CS_RESIDUE = 1e-70
 
 
@@ -717,7 +722,7 @@ def judge(spec, acc, seed=0):
                     okind = 'of-%s-wrt-%s' % (_kind(spec['outputs'][o]), _kind(m['shape']))
                     # second-derivative sensitivity to input rounding is covered by the spread; add a
                     # relative slack for the unit-conversion factor itself
-                    tolp = _tol(ref, DJ[o, i], extra_scale=0.0) + 16 * EPS * np.abs(ref)
+                    tolp = _tol(ref, DJ[o, i], extra_scale=0.0) + 16 * EPS * np.abs(ref) + CS_RESIDUE
                     # totals
                     got = np.asarray(tot['c.' + o, 'ivc.' + i])
                     acc.count('obs:totals-' + mode)
